@@ -6,6 +6,7 @@ import NmVerif.NN.ComposeLemmas
 import NmVerif.NN.LinearLemmas
 import NmVerif.NN.LinearTensordot
 import NmVerif.NN.NormLemmas
+import NmVerif.NN.BatchNormLemmas
 /-
   C17 — neural-network routines equal their reference (PyTorch) definitions.
 
@@ -415,6 +416,47 @@ example :
     (layerNorm (· + ·) (· - ·) (· * ·) (· / ·) (fun t => t * t) id (fun (s : Int) (n : Nat) => s / (n : Int)) 1 x w b).map
         (fun v => (v.shape, (allIdx v.shape).map v.get))
       = some ([1, 3], [some ((1 - 3) / 5 * 10 + 0), some ((2 - 3) / 5 * 10 + 1), some ((6 - 3) / 5 * 10 + 2)]) := by decide
+
+/-- **batch_norm (inference form) on a rank-4 input `(N, C, H, W)`** with per-channel `mean`, `var`, `weight`, `bias`
+    of shape `(C)`: the composition (each parameter through `atleast_nd(·, 3)` and `moveaxis(·, −1, −3)`, i.e. shape
+    `(C,1,1)`, then element-wise with broadcasting) exists, keeps the shape, and
+    `out[n,c,h,w] = ((x[n,c,h,w] − mean[c]) / sqrt(var[c] + eps)) · weight[c] + bias[c]` — the parameters of the element's
+    own channel (axis 1), abstract element operations.  For other input ranks see `batch_norm_rank2_counterexample`. -/
+theorem batch_norm_eq_def {α : Type} (add sub mul div : α → α → α) (sqrt : α → α) (eps : α) (x m v w b : Arr α)
+    (N C H W : Nat) (hx : x.shape = [N, C, H, W]) (hm : m.shape = [C]) (hv : v.shape = [C]) (hw : w.shape = [C])
+    (hb : b.shape = [C]) (hN : 0 < N) (hC : 0 < C) (hH : 0 < H) (hW : 0 < W) :
+    ∃ r, batchNorm add sub mul div sqrt eps x m v w b = some r ∧ r.shape = [N, C, H, W] ∧
+      ∀ n c h w', n < N → c < C → h < H → w' < W →
+        r.get [n, c, h, w'] = some (add (mul (div (sub (x.get [n, c, h, w']) (m.get [c])) (sqrt (add (v.get [c]) eps)))
+          (w.get [c])) (b.get [c])) := by
+  obtain ⟨w', hw1, hw2, hw3⟩ := chanParam3 w C hw
+  obtain ⟨b', hb1, hb2, hb3⟩ := chanParam3 b C hb
+  obtain ⟨m', hm1, hm2, hm3⟩ := chanParam3 m C hm
+  obtain ⟨v', hv1, hv2, hv3⟩ := chanParam3 v C hv
+  have hsd : ∀ c, c < C → (un (fun t => sqrt (add t eps)) v').get [c, 0, 0] = some (sqrt (add (v.get [c]) eps)) := by
+    intro c hc; show (v'.get [c, 0, 0]).map _ = _; rw [hv3 c hc]; rfl
+  obtain ⟨s1, hs1, hs2, hs3⟩ := bin_chan sub (lift x) m' (fun c => m.get [c]) N C H W hN hC hH hW hx hm2 hm3
+  obtain ⟨d1, hd1, hd2, hd3⟩ := bin_chan div s1 (un (fun t => sqrt (add t eps)) v') (fun c => sqrt (add (v.get [c]) eps))
+    N C H W hN hC hH hW hs2 hv2 hsd
+  obtain ⟨p1, hp1, hp2, hp3⟩ := bin_chan mul d1 w' (fun c => w.get [c]) N C H W hN hC hH hW hd2 hw2 hw3
+  obtain ⟨r, hr1, hr2, hr3⟩ := bin_chan add p1 b' (fun c => b.get [c]) N C H W hN hC hH hW hp2 hb2 hb3
+  refine ⟨r, by simp only [batchNorm, hw1, hb1, hm1, hv1, hs1, hd1, hp1, Option.bind_some]; exact hr1, hr2,
+    fun n c h w' hn hc hh hw'' => ?_⟩
+  rw [hr3 n c h w' hn hc hh hw'', hp3 n c h w' hn hc hh hw'', hd3 n c h w' hn hc hh hw'', hs3 n c h w' hn hc hh hw'']
+  rfl
+
+example : ([1, 2, 2, 3] : Shape) = [1, 2, 2, 3] ∧ (0 < 1 ∧ 0 < 2 ∧ 0 < 2 ∧ 0 < 3) := by decide
+
+/-- known finding batch_norm.rank-not-4, as the model mirrors it: on a `(N, C) = (1, 2)` input the per-channel
+    parameters are still moved to axis −3, i.e. reshaped to `(2,1,1)`, and the result has the shape `(2,1,2)` instead
+    of `(1,2)` (PyTorch normalises axis 1 of a `(N, C)` input and keeps the shape). -/
+theorem batch_norm_rank2_counterexample :
+    let x : Arr Int := ⟨[1, 2], fun d => match d with | [_, c] => (c + 1 : Nat) | _ => 0⟩
+    let one : Arr Int := ⟨[2], fun _ => 1⟩
+    let zero : Arr Int := ⟨[2], fun _ => 0⟩
+    (batchNorm (· + ·) (· - ·) (· * ·) (· / ·) id 0 x zero one one zero).map (fun r => r.shape) = some [2, 1, 2]
+      ∧ x.shape = [1, 2] := by
+  decide
 
 /-! ## convolution -/
 
